@@ -747,6 +747,13 @@ impl BoundsAnalyzer {
             self.detected_infeasible = true;
             return false;
         };
+        // a bound that has run off to infinity on its own side leaves no value
+        // at all (x >= 1 with 3 * x <= min { x, x } doubles the lower bound
+        // until it overflows): that is a contradiction, not a range
+        if tightened.lower == f64::INFINITY || tightened.upper == f64::NEG_INFINITY {
+            self.detected_infeasible = true;
+            return false;
+        }
         let changed = tightened.lower > current.lower + self.tolerance
             || tightened.upper < current.upper - self.tolerance;
         if changed {
